@@ -344,7 +344,9 @@ SizeChecked(m) == ArgFmt(m) # <<>>
 PayCases(s, k, st) ==
    UNION {{Case(s, "pay", k, x, n, None) : n \in PaySizes \ {st.evs[x].sz}}
           : x \in {y \in 1..Len(st.evs) : SizeChecked(st.evs[y].m) /\ ~st.evs[y].j}}
-NoJumboCases(s, k, st) == {Case(s, "nojumbo", k, x, 0, None) : x \in {y \in 1..Len(st.evs) : st.evs[y].j}}
+\* (q = 0: u32 id and the label as a normal payload of 8 bytes; q = 1: the very bytes a jumbo event stores,
+\*  u32 size, u32 id, terminated label, as a normal payload of 12 bytes)
+NoJumboCases(s, k, st) == {Case(s, "nojumbo", k, x, q, None) : x \in {y \in 1..Len(st.evs) : st.evs[y].j}, q \in {0, 1}}
 
 CasesOf(s) ==
    LET T == Seed(s) IN
@@ -374,7 +376,7 @@ Apply(T, c) ==
           LET e == T[k].evs[p] IN
           [T EXCEPT ![k].evs = [T[k].evs EXCEPT ![p] = [e EXCEPT !.sz = q, !.a = ArgsFor(e.m, e.a, q)]]]
      [] kind = "nojumbo" ->      \* the same content as a normal event: u32 id, label padded to 4 bytes
-          [T EXCEPT ![k].evs = [T[k].evs EXCEPT ![p] = [T[k].evs[p] EXCEPT !.j = FALSE, !.sz = 8]]]
+          [T EXCEPT ![k].evs = [T[k].evs EXCEPT ![p] = [T[k].evs[p] EXCEPT !.j = FALSE, !.sz = IF q = 1 THEN 12 ELSE 8]]]
 
 \* a thread / process / loom id replaced by a fresh one is another trace the property says nothing about
 FreshId(c) == c[2] = "meta" /\ c[5] = "altered" /\ c[4] \in FreshIdKeys
